@@ -47,6 +47,7 @@ type Exec struct {
 	appendCapFn map[string]bool
 	mapOrderFn  map[string]bool // nondeterministic order for range statements inside these functions (substring match)
 	fifoSched   bool
+	selectFirst bool
 	raceOn      bool
 
 	builders map[string]StrV
